@@ -733,7 +733,7 @@ var c20Views = []struct {
 	size     float64
 }{{"0 0 48 48", 0, 0, 48}, {"4 -2 24 24", 4, -2, 24}}
 
-var c20Ds = []string{"M4 4h10v10H4z", "M20 6l8 2-4 9z"}
+var c20Ds = []string{"M4 4h10v10H4z", "M20 6l8 2-4 9z", "M16 34h22v4H16z"} // the third is skipped by the converter when (and only when) its fill is #fff
 var c20Ops = []string{"", "o:1", "o:.5", "f:.5", "o:.25", "f:.25"}
 
 func c20Files(w *mc.W) {
@@ -756,6 +756,9 @@ func c20Files(w *mc.W) {
 		}
 		for _, op := range c20Ops {
 			rc(append(paths, c20Path{D: c20Ds[len(paths)%2], Opacity: op}))
+			if op == "" && len(paths) < 2 {
+				rc(append(paths, c20Path{D: c20Ds[2], Opacity: op})) // without a fill attribute: an ordinary path
+			}
 		}
 	}
 	rc(nil)
@@ -859,7 +862,9 @@ func c20FileOne(w *mc.W, f *c20File) {
 		started := false
 		if d != "" {
 			// the two fixed path strings, by hand
-			if d == c20Ds[0] {
+			if d == c20Ds[2] {
+				want = append(want, rec.Call{M: rec.MStartPath, Adj: adj, A: [6]float32{ax(16), ay(34)}}, rec.Call{M: rec.MRelH, A: [6]float32{rl(22)}}, rec.Call{M: rec.MRelV, A: [6]float32{rl(4)}}, rec.Call{M: rec.MAbsH, A: [6]float32{ax(16)}})
+			} else if d == c20Ds[0] {
 				want = append(want, rec.Call{M: rec.MStartPath, Adj: adj, A: [6]float32{ax(4), ay(4)}}, rec.Call{M: rec.MRelH, A: [6]float32{rl(10)}}, rec.Call{M: rec.MRelV, A: [6]float32{rl(10)}}, rec.Call{M: rec.MAbsH, A: [6]float32{ax(4)}})
 			} else {
 				want = append(want, rec.Call{M: rec.MStartPath, Adj: adj, A: [6]float32{ax(20), ay(6)}}, rec.Call{M: rec.MRelL, A: [6]float32{rl(8), rl(2)}}, rec.Call{M: rec.MRelL, A: [6]float32{rl(-4), rl(9)}})
